@@ -49,7 +49,9 @@ fn play(rng: &mut Rng, r: &mut Report, rp: &dyn Fn() -> Json, continue_existing:
     let mut explicit_ids: Vec<u32> = vec![];
     let mut log: Vec<String> = vec![format!("start at {}", start)];
     let mut all_implicit = !continue_existing;
-    let pool: Vec<u32> = (0..4).map(|i| 7_000 + i).collect();
+    // operand pool: four fixed ids plus the most recent ids the builder returned (def-use links: an array
+    // whose length is a real constant, a pointer to a real type ...)
+    let mut pool: Vec<u32> = (0..4).map(|i| 7_000 + i).collect();
     let steps = rng.range(1, 50);
     let mut open_block = false;
     for step in 0..steps {
@@ -106,6 +108,14 @@ fn play(rng: &mut Rng, r: &mut Report, rp: &dyn Fn() -> Json, continue_existing:
             log.push(format!("{}({}) -> {:?}{}", sem.name, show_trace(&trace).chars().take(140).collect::<String>(), out.word(), out.err_name().map(|e| format!(" Err({})", e)).unwrap_or_default()));
             let next_after = b.verif_next_id();
             let tgv_after = b.module_ref().types_global_values.len();
+            if let Some(w) = out.word() {
+                if !pool.contains(&w) {
+                    pool.push(w);
+                    if pool.len() > 9 {
+                        pool.remove(4);
+                    }
+                }
+            }
             if next_after < next_before {
                 fail!(format!("counter-decreased:{}", sem.name), format!("the id counter went from {} to {}", next_before, next_after));
             }
